@@ -148,6 +148,15 @@ class SysState:
                 leaf.__dict__.pop(k, None)
             else:
                 leaf.__dict__[k] = _thaw(v) if isinstance(v, tuple) else v
+        reset_prepared()
+
+
+def reset_prepared():
+    """empty the simulator's global list of prepared wires without assuming its container type"""
+    p = Wire.prepared
+    if hasattr(p, 'clear'):
+        p.clear()
+    else:
         Wire.prepared = []
 
 
